@@ -160,14 +160,28 @@ class Frame:
         from quara.objects.mprocess import MProcess
         x = np.array(x, dtype=np.float64)
         kw.setdefault("is_physicality_required", False)
+        layout = kw.pop("layout", "C")
         D = self.D
+
+        def lay(a):
+            """the same values in another memory layout: 'F' Fortran order, 'strided' a non-contiguous view of a larger buffer"""
+            a = np.array(a, dtype=np.float64)
+            if layout == "C":
+                return a.copy()
+            if layout == "F":
+                return np.asfortranarray(a) if a.ndim == 2 else a[::-1].copy()[::-1]
+            if layout == "strided":
+                big = np.full(tuple(2 * n for n in a.shape), 7.5)
+                big[tuple(slice(None, None, 2) for _ in a.shape)] = a
+                return big[tuple(slice(None, None, 2) for _ in a.shape)]
+            raise ValueError(layout)
         if self.kind == "state":
-            return State(self.c_sys, x.copy(), **kw)
+            return State(self.c_sys, lay(x), **kw)
         if self.kind == "povm":
-            return Povm(self.c_sys, [x[k * D:(k + 1) * D].copy() for k in range(self.m)], **kw)
+            return Povm(self.c_sys, [lay(x[k * D:(k + 1) * D]) for k in range(self.m)], **kw)
         if self.kind == "gate":
-            return Gate(self.c_sys, x.reshape(D, D).copy(), **kw)
-        return MProcess(self.c_sys, [x[k * D * D:(k + 1) * D * D].reshape(D, D).copy() for k in range(self.m)], **kw)
+            return Gate(self.c_sys, lay(x.reshape(D, D)), **kw)
+        return MProcess(self.c_sys, [lay(x[k * D * D:(k + 1) * D * D].reshape(D, D)) for k in range(self.m)], **kw)
 
     def cls(self):
         from quara.objects.state import State
